@@ -3,7 +3,8 @@
 use crate::rng::mix;
 use crate::sched::Sched;
 use crate::snap::{snap, Snap};
-use crate::workload::SITE_STUB_Y;
+use crate::workload::{SITE_EDGE, SITE_STUB_Y};
+use std::cell::Cell;
 use cel_interpreter::Value;
 use std::cell::RefCell;
 use std::sync::Arc;
@@ -120,6 +121,124 @@ impl ThreadState {
 
 thread_local! {
     pub static TS: RefCell<ThreadState> = RefCell::new(ThreadState::new());
+    /// fine-grained mode: instrumented edges left until this thread's next scheduling decision
+    /// (0 = edge scheduling off for this thread right now)
+    static EDGE_COUNTDOWN: Cell<u32> = const { Cell::new(0) };
+    /// edges seen while the thread was active and outside oracle code
+    static EDGES: Cell<u64> = const { Cell::new(0) };
+    static EDGE_COUNTING: Cell<bool> = const { Cell::new(false) };
+    /// (scheduler, thread index) of this thread while it is a simulated thread under the baton
+    static SIM_SCHED: Cell<(*const Sched, usize)> = const { Cell::new((std::ptr::null(), 0)) };
+}
+
+/// For the futex seam: the scheduler this thread is simulated by, if any.
+pub fn sim_sched() -> Option<(*const Sched, usize)> {
+    SIM_SCHED
+        .try_with(|c| {
+            let (p, t) = c.get();
+            if p.is_null() {
+                None
+            } else {
+                Some((p, t))
+            }
+        })
+        .unwrap_or(None)
+}
+
+/// Number of guards announced by the instrumented crate (0 = this is not the fine-grained build).
+pub static N_GUARDS: std::sync::atomic::AtomicUsize = std::sync::atomic::AtomicUsize::new(0);
+
+pub fn fine_build() -> bool {
+    N_GUARDS.load(std::sync::atomic::Ordering::Relaxed) > 0
+}
+
+/// SanitizerCoverage callbacks. Only the cel_interpreter crate is instrumented (tools/rustc_wrap.sh),
+/// so every call comes from interpreter code (including code a change under test adds to it).
+#[no_mangle]
+pub extern "C" fn __sanitizer_cov_trace_pc_guard_init(start: *mut u32, stop: *mut u32) {
+    if start == stop {
+        return;
+    }
+    let n = (stop as usize - start as usize) / 4;
+    // SAFETY: the runtime contract of SanitizerCoverage: [start, stop) is an array of u32 guards.
+    unsafe {
+        if *start != 0 {
+            return;
+        }
+        let base = N_GUARDS.fetch_add(n, std::sync::atomic::Ordering::SeqCst);
+        for i in 0..n {
+            *start.add(i) = (base + i + 1) as u32;
+        }
+    }
+}
+
+#[no_mangle]
+pub extern "C" fn __sanitizer_cov_trace_pc_guard(_guard: *mut u32) {
+    if !EDGE_COUNTING.try_with(|c| c.get()).unwrap_or(false) {
+        return;
+    }
+    EDGES.with(|c| c.set(c.get() + 1));
+    let fire = EDGE_COUNTDOWN.with(|c| {
+        let v = c.get();
+        if v == 0 {
+            false
+        } else if v == 1 {
+            c.set(0);
+            true
+        } else {
+            c.set(v - 1);
+            false
+        }
+    });
+    if fire {
+        edge_decision();
+    }
+}
+
+#[inline(never)]
+fn edge_decision() {
+    // This runs in the middle of arbitrary interpreter code, possibly while harness code further up
+    // the stack holds the thread state (e.g. a stub cloning a value): never panic here (the
+    // callback is `extern "C"`), just try again at the next edge.
+    let target = TS
+        .try_with(|c| match c.try_borrow_mut() {
+            Ok(mut ts) => {
+                if !ts.active || ts.oracle_depth > 0 {
+                    return Err(false);
+                }
+                ts.steps += 1;
+                match ts.sched.clone() {
+                    Some(s) => Ok((s, ts.tid)),
+                    None => Err(false),
+                }
+            }
+            Err(_) => Err(true),
+        })
+        .unwrap_or(Err(false));
+    let target = match target {
+        Ok(t) => Some(t),
+        Err(retry) => {
+            if retry {
+                EDGE_COUNTDOWN.with(|c| c.set(1));
+            }
+            None
+        }
+    };
+    if let Some((s, tid)) = target {
+        // no edge may be counted while we are inside the scheduler
+        EDGE_COUNTING.with(|c| c.set(false));
+        let gap = s.yield_point(tid, SITE_EDGE);
+        EDGE_COUNTDOWN.with(|c| c.set(gap));
+        EDGE_COUNTING.with(|c| c.set(true));
+    }
+}
+
+pub fn set_edge_gap(gap: u32) {
+    EDGE_COUNTDOWN.with(|c| c.set(gap));
+}
+
+pub fn edges_seen() -> u64 {
+    EDGES.with(|c| c.get())
 }
 
 pub fn with<R>(f: impl FnOnce(&mut ThreadState) -> R) -> R {
@@ -132,13 +251,21 @@ pub fn activate(tid: usize, sched: Option<Arc<Sched>>, enabled_sites: u32, buggi
         *ts = ThreadState::new();
         ts.active = true;
         ts.tid = tid;
+        // the Arc in `ts.sched` keeps the scheduler alive for as long as the raw pointer is published
+        SIM_SCHED.with(|c| c.set((sched.as_ref().map(|s| Arc::as_ptr(s)).unwrap_or(std::ptr::null()), tid)));
         ts.sched = sched;
         ts.enabled_sites = enabled_sites;
         ts.buggify_milli = buggify_milli;
-    })
+    });
+    EDGES.with(|c| c.set(0));
+    EDGE_COUNTDOWN.with(|c| c.set(0));
+    EDGE_COUNTING.with(|c| c.set(true));
 }
 
 pub fn deactivate() -> (Probes, u64) {
+    SIM_SCHED.with(|c| c.set((std::ptr::null(), 0)));
+    EDGE_COUNTING.with(|c| c.set(false));
+    EDGE_COUNTDOWN.with(|c| c.set(0));
     with(|ts| {
         ts.active = false;
         ts.sched = None;
@@ -178,16 +305,20 @@ pub fn end_exec() -> ExecTelemetry {
 
 /// Oracle code (snapshots, lookups made by the checker) runs inside this guard so that the hook
 /// points it hits neither schedule nor count.
-pub struct OracleGuard;
+pub struct OracleGuard {
+    was_counting: bool,
+}
 impl OracleGuard {
     pub fn enter() -> OracleGuard {
         with(|ts| ts.oracle_depth += 1);
-        OracleGuard
+        let was_counting = EDGE_COUNTING.with(|c| c.replace(false));
+        OracleGuard { was_counting }
     }
 }
 impl Drop for OracleGuard {
     fn drop(&mut self) {
         with(|ts| ts.oracle_depth -= 1);
+        EDGE_COUNTING.with(|c| c.set(self.was_counting));
     }
 }
 
@@ -202,7 +333,10 @@ fn yield_at(site: u32) {
         ts.sched.clone().map(|s| (s, ts.tid))
     });
     if let Some((s, tid)) = target {
-        s.yield_point(tid, site);
+        let counting = EDGE_COUNTING.with(|c| c.replace(false));
+        let gap = s.yield_point(tid, site);
+        EDGE_COUNTDOWN.with(|c| c.set(gap));
+        EDGE_COUNTING.with(|c| c.set(counting));
     }
 }
 
